@@ -112,6 +112,23 @@ def read_rows(path=None):
     return rows
 
 
+def shared_daughters(rows):
+    """Daughter names that activation.dat lists under two or more different parent
+    ELEMENTS: [(daughter, parent1, parent2, [all tabulated half-lives of that
+    daughter under the two parents, hours])], one entry per pair of parents, sorted."""
+    d = {}
+    for r in rows:
+        d.setdefault(r["daughter"], {}).setdefault(r["symbol"], set()).add(r["Thalf_hrs"])
+    out = []
+    for name in sorted(d):
+        parents = sorted(d[name])
+        for i in range(len(parents)):
+            for j in range(i + 1, len(parents)):
+                hl = sorted(d[name][parents[i]] | d[name][parents[j]])
+                out.append((name, parents[i], parents[j], hl))
+    return out
+
+
 def branch(row):
     """'b', '2n' or 'act' (single capture with burn-up: every other reaction)."""
     return row["reaction"] if row["reaction"] in ("b", "2n") else "act"
